@@ -248,6 +248,8 @@ FINDING_CLASSES = [
     ("defmacro-without-name-index-panic", [r"panic:crates/steel-core/src/parser/kernel\.rs:load_syntax_transformers"]),
     ("jit-compile-already-visited-instruction", [r"(panic|abort:panic-cannot-unwind):crates/steel-core/src/jit2/cgen\.rs:stack_to_ssa"]),
     ("module-get-unknown-symbol-panics", [r"panic:crates/steel-core/src/steel_vm/builtin\.rs:get"]),
+    ("engine-jit-memory-never-released",
+     [r"engines:panic:crates/steel-core/src/jit2/cgen\.rs:.*", r"engines:panic:.*jit\.rs:jit_compile_lambda", r"engines:mappings-never-released"]),
     ("macro-of-failed-program-stays-defined", [r"history:macro-of-failed-program-is-not-defined"]),
     ("continuation-of-finished-evaluation", [r"history:continuation-of-earlier-.*"]),
 ]
@@ -918,6 +920,72 @@ def overflow_phase(ctx, b, slot=0):
     # the marker that was reached last names the phase before the one that died; dying after `run` = while the values
     # of the finished evaluation are dropped
     return {"start": "read", "read": "expand", "expand": "compile", "compile": "run", "run": "drop"}.get(last, "?")
+
+
+# ------------------------------------------------------------------------------------------------------------------
+# directed probe: one engine per request
+
+def engines_probe(ctx):
+    """Create, use (one small procedure) and drop engines in ONE child process, with the JIT and — as the control —
+    with STEEL_JIT=false.  Returns {label: dict(n, worked, panic, maps_first, maps_last, rc)}.  Runs in the background
+    of the other phases (one core each)."""
+    try:
+        limit = int(open("/proc/sys/vm/max_map_count").read())
+    except (OSError, ValueError):
+        limit = 65530
+    n_jit = 300 if not ctx.quick() else max(60, min(300, limit // 320 + 30))     # ~324 mappings per engine stay behind
+    n_ctl = 300 if not ctx.quick() else 40
+    res = {}
+
+    def one(label, n, env):
+        sandbox = os.path.join(SCRATCH, "sandbox", "engines-" + label)
+        os.makedirs(sandbox, exist_ok=True)
+        rc, out = C.sh(["bash", "-c", "ulimit -c 0; exec \"$0\" \"$@\"", BIN, "engines", str(n)], cwd=sandbox, timeout=900, env=env)
+        d = {"n": n, "rc": rc, "worked": None, "panic": None, "maps_first": None, "maps_last": None, "max_map_count": limit}
+        for l in out.splitlines():
+            f = l.split(" ", 2)
+            if f[0] == "E" and len(f) == 3 and f[1] == "1":
+                d["maps_first"] = int(f[2].split("=")[1])
+            elif f[0] == "P" and len(f) == 3:
+                d["panic"] = (int(f[1]), f[2])
+            elif f[0] == "END" and len(f) == 3:
+                d["worked"] = int(f[1])
+                d["maps_last"] = int(f[2].split("=")[1])
+        if d["worked"] is None:
+            d["tail"] = out[-400:]
+        res[label] = d
+
+    ths = [threading.Thread(target=one, args=("jit", n_jit, {})),
+           threading.Thread(target=one, args=("no-jit", n_ctl, {"STEEL_JIT": "false"}))]
+    for t in ths:
+        t.start()
+    return ths, res
+
+
+def engines_verdict(ctx, classes, stats, ths, res):
+    for t in ths:
+        t.join()
+    stats["engines_probe"] = res
+    for label, d in res.items():
+        replay = (";;; directed probe `c07 engines %d`%s: in ONE process, %d times: Engine::new(), evaluate the two forms "
+                  "below (with a fresh name each time), drop the engine\n(define (f1 x) (+ x 1))\n(f1 1)\n" % (
+                      d["n"], " with STEEL_JIT=false" if label == "no-jit" else "", d["n"]))
+        if d["worked"] is None:
+            classes.add("engines:died:" + label, replay, "the child died: rc=%s %s" % (d["rc"], d.get("tail", "")[-200:]), "engines")
+            continue
+        per = (d["maps_last"] - (d["maps_first"] or 0)) / max(1, d["worked"] - 1)
+        d["mappings_kept_per_engine"] = round(per, 1)
+        if d["panic"]:
+            i, what = d["panic"]
+            key = "engines:" + ("panic:" + panic_class(what).split(":", 1)[1] if " | " in what else "error")
+            if label == "no-jit":
+                key += ":without-jit"
+            classes.add(key, replay, "engine number %d of the process failed: %s; /proc/self/maps grew from %s to %s lines over %d dropped engines "
+                        "(%.0f per engine, vm.max_map_count = %d)" % (i, what[:300], d["maps_first"], d["maps_last"], d["worked"], per, d["max_map_count"]), "engines")
+        elif per > 20:
+            classes.add("engines:mappings-never-released" + (":without-jit" if label == "no-jit" else ""), replay,
+                        "no failure within %d engines, but every dropped engine leaves %.0f memory mappings behind (%s -> %s lines of "
+                        "/proc/self/maps; vm.max_map_count = %d)" % (d["worked"], per, d["maps_first"], d["maps_last"], d["max_map_count"]), "engines")
 
 
 # ------------------------------------------------------------------------------------------------------------------
